@@ -57,7 +57,7 @@ func newSmt(eng *Engine, intMode bool) *Smt {
 	s.prelude = append(s.prelude,
 		strings.ReplaceAll(refDecl, "IDX", idx),
 		"(define-sort Str () Int)",
-		"(define-sort F64 () Int)",
+		"(define-sort F64 () Real)",
 		fmt.Sprintf("(declare-datatypes ((Slice 0)) (((mkslice (sbase Ref) (soff %s) (slen %s) (scap %s)))))", idx, idx, idx),
 		"(declare-datatypes ((Iface 0)) (((mkiface (itag Int) (idata Int)))))",
 		"(define-fun-rec rootloc ((r Ref)) Int (ite ((_ is loc) r) (locid r) (ite ((_ is fld) r) (rootloc (fbase r)) (ite ((_ is elem) r) (rootloc (ebase r)) (- 1)))))",
@@ -67,7 +67,7 @@ func newSmt(eng *Engine, intMode bool) *Smt {
 		fmt.Sprintf("(declare-fun strat (Str %s) %s)", idx, s.intSortW(8)),
 		"(declare-fun str_concat (Str Str) Str)",
 		"(define-fun str_empty () Str 0)",
-		"(define-fun f64_zero () F64 0)",
+		"(define-fun f64_zero () F64 0.0)",
 	)
 	if intMode {
 		s.prelude = append(s.prelude,
